@@ -639,6 +639,8 @@ pub fn record_dec3(out: &mut Out, tier: &str, seed: u64) {
 
 // ------------------------------------------------------------------------------------------------
 // poll decoder under a scripted schedule, with full observation of the transport boundary
+static POLL_RUNS: std::sync::atomic::AtomicUsize = std::sync::atomic::AtomicUsize::new(0);
+
 pub struct PollObs {
     pub events: Vec<J>,
     pub result: J,
@@ -658,6 +660,8 @@ pub fn poll_run<F: Fam>(
 ) -> (PollObs, usize) {
     let mut rd = ScriptedReader::new(stream.clone(), script, default);
     rd.pos = rd_pos;
+    // every other run the transport fills the buffer in the initialize_unfilled / advance style
+    rd.init_style = POLL_RUNS.fetch_add(1, std::sync::atomic::Ordering::Relaxed) % 2 == 1;
     let calls = rd.calls.clone();
     // (number of transport calls made so far, what the poll returned) after EVERY poll of the decoder
     let mut marks: Vec<(usize, &'static str)> = Vec::new();
@@ -930,7 +934,119 @@ fn short_streams<F: GenFam>(rng: &mut Rng) -> Vec<Vec<u8>> {
     v
 }
 
+/// C05 for frames of 4 KiB .. 12 MiB whose size sits on and just above the powers of two and three times the powers
+/// of two (where internal budgets, buffer-growth steps and probe reads switch - nobody's protocol boundary).  The
+/// stream does not travel as JSON: the events carry the first bytes (all that the frame-end clause needs), and the
+/// packet / body are compared by the harness with the result of ONE uninterrupted read and reported as a digest.
+fn big_poll_run<F: Fam>(out: &mut Out, run: u64, stream: &Arc<Vec<u8>>, oneshot: &Option<(usize, Vec<u8>, F::Packet)>,
+                        script: Vec<RStep>, dflt: RStep, init_style: bool) {
+    use std::hash::Hasher;
+    let digest = |b: &[u8]| {
+        let mut h = std::collections::hash_map::DefaultHasher::new();
+        h.write(b);
+        format!("{}:{:016x}", b.len(), h.finish())
+    };
+    let one = match oneshot {
+        Some((t, b, _)) => json!({"k": "ok", "v": "same", "total": t, "body": digest(b)}),
+        None => json!({"k": "err", "e": "oneshot-failed", "a": []}),
+    };
+    out.boundary();
+    out.hold = true;
+    out.ev(json!({"ev": "Reset", "run_start": true, "run": run, "fam": F::NAME, "big": true, "len": stream.len(),
+                  "bytes": jbytes(&stream[..stream.len().min(8)]), "oneshot": one}));
+    let mut st: GenericPollPacketState<F::Header> = Default::default();
+    let mut rd = ScriptedReader::new(stream.clone(), script, dflt);
+    rd.init_style = init_style;
+    let waker = noop_waker();
+    let mut cx = std::task::Context::from_waker(&waker);
+    let (mut seen, mut polls, mut pendings, mut reads) = (0usize, 0usize, 0usize, 0usize);
+    loop {
+        polls += 1;
+        let r = {
+            let mut fut = GenericPollPacket::new(&mut st, &mut rd);
+            guarded(|| std::pin::Pin::new(&mut fut).poll(&mut cx))
+        };
+        for l in &rd.log[seen..] {
+            reads += 1;
+            out.ev(json!({"ev": "Read", "run": run, "cap": l.cap, "off": -1, "ans": l.ans, "n": l.n, "pos": l.pos,
+                          "kind": l.kind.map(io_kind_name).unwrap_or_default()}));
+        }
+        seen = rd.log.len();
+        let res = match r {
+            Err(m) => jpanic(&m),
+            Ok(std::task::Poll::Pending) => {
+                pendings += 1;
+                out.ev(json!({"ev": "PollRet", "run": run, "ret": "pending"}));
+                out.ev(json!({"ev": "Drop", "run": run}));
+                if polls >= MAX_POLLS {
+                    json!({"k": "spin"})
+                } else {
+                    continue;
+                }
+            }
+            Ok(std::task::Poll::Ready(Ok((total, body, p)))) => {
+                let bb = body_bytes(&body);
+                let same = oneshot.as_ref().map_or(false, |o| o.2 == p);
+                json!({"k": "ok", "v": if same { "same" } else { "different" }, "total": total, "body": digest(&bb)})
+            }
+            Ok(std::task::Poll::Ready(Err(e))) => F::err_json(&e),
+        };
+        out.ev(json!({"ev": "PollRet", "run": run, "ret": "ready", "out": res, "buflen": 0}));
+        break;
+    }
+    out.ev(json!({"ev": "RunEnd", "run": run, "polls": polls, "pendings": pendings, "drops": pendings, "reads": reads}));
+    out.hold = false;
+}
+
+fn big_poll_runs<F: Fam>(out: &mut Out, run: &mut u64) {
+    let five = F::NAME == "v5";
+    for k in 12..=22u32 {
+        for base in [1usize << k, 3usize << k] {
+            for d in [0usize, 1, 31] {
+                let n = base + d;
+                let mut body = vec![0u8, 1, b'a'];
+                if five {
+                    body.push(0);
+                }
+                let fill = n - body.len();
+                body.extend((0..fill).map(|i| (i % 251) as u8));
+                let mut v = crate::topic::frame(0x31, &body);
+                let hdr = v.len() - body.len();
+                v.extend_from_slice(&[0xC0, 0x00]); // the next frame is already in the transport
+                let stream = Arc::new(v);
+                let oneshot = {
+                    let mut st: GenericPollPacketState<F::Header> = Default::default();
+                    let mut rd = ScriptedReader::all(stream.to_vec());
+                    rd.logging = false;
+                    match guarded(|| drive(GenericPollPacket::new(&mut st, &mut rd), 8).0) {
+                        Ok(Some(Ok((t, b, p)))) => Some((t, body_bytes(&b), p)),
+                        _ => None,
+                    }
+                };
+                let scripts: Vec<(Vec<RStep>, RStep)> = vec![
+                    (vec![], RStep::Data(usize::MAX)),
+                    (vec![], RStep::Data(4096)),
+                    ((0..400).flat_map(|_| [RStep::Data(65536), RStep::Data(65536), RStep::Pending]).collect(), RStep::Data(65536)),
+                    ((0..hdr).map(|_| RStep::Data(1)).chain([RStep::Pending, RStep::Data(1 << 20), RStep::Pending]).collect(), RStep::Data(1 << 20)),
+                ];
+                for (i, (sc, dflt)) in scripts.into_iter().enumerate() {
+                    if i == 1 && n > (1 << 21) + 64 {
+                        continue; // (4 KiB reads of the largest frames: thousands of events that add nothing)
+                    }
+                    *run += 1;
+                    big_poll_run::<F>(out, *run, &stream, &oneshot, sc, dflt, (*run + k as u64) % 2 == 1);
+                }
+            }
+        }
+    }
+}
+
 pub fn record_poll(out: &mut Out, tier: &str, seed: u64) {
+    {
+        let mut runb = 5_000_000u64;
+        big_poll_runs::<V3>(out, &mut runb);
+        big_poll_runs::<V5>(out, &mut runb);
+    }
     let n = if tier == "thorough" { 40000 } else { 700 };
     let mut rng0 = Rng::new(seed ^ 0xE05);
     let mut run0 = 1_000_000u64;
@@ -1116,7 +1232,7 @@ fn stream_events_with<F: GenFam>(out: &mut Out, rng: &mut Rng, b: &mut Budget, r
     // for canonical encodings
     let front = match force_front {
         Some(f) if !spelled => f,
-        _ => if spelled { *rng.pick(&["poll", "async"]) } else { *rng.pick(&["poll", "async", "block"]) },
+        _ => if spelled { *rng.pick(&["poll", "async"]) } else { *rng.pick(&["poll", "async", "block", "block-acc", "poll-whole"]) },
     };
     let n = n + npre;
     out.boundary();
@@ -1125,15 +1241,17 @@ fn stream_events_with<F: GenFam>(out: &mut Out, rng: &mut Rng, b: &mut Budget, r
                   "packets": ps.iter().map(|p| F::to_json(p)).collect::<Vec<_>>(), "lens": lens, "total": stream.len()}));
     let mut pos = 0usize;
     let mut i = 0usize;
+    let mut delivered = 0usize; // (block-acc: how much of the stream is in the receive buffer)
     loop {
         i += 1;
         if i > n + 2 {
             break;
         }
         let before = pos;
+        delivered = delivered.max(pos).min(stream.len());
         let (res, after, reported): (J, usize, i64) = match front {
-            "poll" => {
-                let (script, dflt) = random_schedule(rng, stream.len() - pos);
+            "poll" | "poll-whole" => {
+                let (script, dflt) = if front == "poll" { random_schedule(rng, stream.len() - pos) } else { (vec![], RStep::Data(usize::MAX)) };
                 let mut st: GenericPollPacketState<F::Header> = Default::default();
                 let mut never = || false;
                 let (obs, p2) = poll_run::<F>(&stream, script, dflt, &mut never, &mut st, pos);
@@ -1158,6 +1276,28 @@ fn stream_events_with<F: GenFam>(out: &mut Out, rng: &mut Rng, b: &mut Budget, r
                     Ok((Some(Ok(p)), p2)) => (jok(F::to_json(&p)), p2, (p2 - pos) as i64),
                     Ok((Some(Err(e)), p2)) => (F::err_json(&e), p2, -1),
                 }
+            }
+            "block-acc" => {
+                // the blocking decoder over a receive buffer that is filled in pieces: Ok(None) = wait for more
+                let chunk = if stream.len() > 5000 { *rng.pick(&[1460usize, 4096, 65536, 70000]) } else { 1 + rng.below(9) as usize };
+                let mut r;
+                loop {
+                    r = dec_block::<F>(&stream[pos..delivered]);
+                    if r["k"] == "incomplete" && delivered < stream.len() {
+                        delivered = (delivered + chunk).min(stream.len());
+                    } else {
+                        break;
+                    }
+                }
+                let adv = if r["k"] == "ok" {
+                    match F::from_json(&r["v"]) {
+                        Ok(p) => F::encode_len(&p).map(|x| x as i64).unwrap_or(-1),
+                        Err(_) => -1,
+                    }
+                } else {
+                    -1
+                };
+                (r, if adv > 0 { pos + adv as usize } else { pos }, adv)
             }
             _ => {
                 let r = dec_block::<F>(&stream[pos..]);
@@ -1217,6 +1357,27 @@ pub fn record_stream(out: &mut Out, tier: &str, seed: u64) {
             }
         } else if let Some(p) = big_publish::<V3>(rl) {
             stream_events_with::<V3>(out, &mut rng, &mut bb, 900_000 + k as u64, vec![p], Some(front));
+        }
+    }
+    // frames whose remaining length is exactly a power of two or three times one (where internal read budgets, buffer
+    // growth steps and chunked payload reads switch), followed by ordinary packets, through every front-end incl. the
+    // blocking decoder over a receive buffer filled in pieces and the poll decoder over an always-ready transport
+    {
+        let mut k = 0u64;
+        for rl in [12288usize, 16384, 49152, 65536, 65537, 98304, 131072, 196608] {
+            for front in ["poll-whole", "block-acc", "async", "poll"] {
+                k += 1;
+                if (rl > 65537 && tier != "thorough") && (k % 2 == 0) && front != "poll-whole" && front != "block-acc" {
+                    continue;
+                }
+                if k % 2 == 0 {
+                    if let Some(p) = big_publish::<V5>(rl) {
+                        stream_events_with::<V5>(out, &mut rng, &mut bb, 905_000 + k, vec![p], Some(front));
+                    }
+                } else if let Some(p) = big_publish::<V3>(rl) {
+                    stream_events_with::<V3>(out, &mut rng, &mut bb, 905_000 + k, vec![p], Some(front));
+                }
+            }
         }
     }
     // the boundary packets (remaining length / property length on and around every width boundary, per packet type),
@@ -1282,6 +1443,7 @@ fn fault_events<F: Fam>(out: &mut Out, rng: &mut Rng, p: &F::Packet) {
                             let mut rd = ScriptedReader::new(Arc::new(b.clone()), vec![], RStep::Data(chunk));
                             rd.fault_at = Some((k, step, if pend_first { 1 } else { 0 }));
                             rd.logging = false;
+                            rd.init_style = k % 2 == 1;
                             if front == "async" {
                                 drive(F::decode_async(&mut rd), MAX_POLLS).0.map(|r| r.map(|_| ()))
                             } else {
@@ -1303,7 +1465,11 @@ fn fault_events<F: Fam>(out: &mut Out, rng: &mut Rng, p: &F::Packet) {
                 // encoders: accept k bytes, then the fault (a zero-length write for the EOF slot)
                 if k < n {
                     let f = if is_eof_step { WStep::Zero } else { WStep::Err(*kind) };
-                    let a = enc_async::<F>(p, vec![], WStep::Accept(1 + rng.below(5) as usize), Some((k, f)));
+                    // a dead connection: once the write fault has been answered, flushing the sink fails with ANOTHER kind
+                    // (the write fault is what has to be reported); every other run the sink takes vectored writes
+                    let other = if *kind == std::io::ErrorKind::BrokenPipe { std::io::ErrorKind::NotConnected } else { std::io::ErrorKind::BrokenPipe };
+                    let a = crate::codec::enc_async_on::<F>(p, vec![], WStep::Accept(1 + rng.below(5) as usize), Some((k, f)),
+                                                            k % 2 == 1, Some(other));
                     let a0 = a["res"]["a"].get(0).and_then(|x| x.as_str()).unwrap_or("").to_string();
                     encs.push(json!([k, if is_eof_step { "Zero".to_string() } else { io_kind_name(*kind) }, "async",
                                      a["res"]["k"].as_str().unwrap_or(""), a["res"]["e"].as_str().unwrap_or(""), a0, a["sink"]]));
@@ -1494,6 +1660,7 @@ pub fn poll_impl_run<F: Fam>(out: &mut Out, run: u64, bytes: &[u8], script: Vec<
     let mut st: GenericPollPacketState<F::Header> = Default::default();
     let mut rd = ScriptedReader::new(stream.clone(), script, dflt);
     rd.fault_at = fault;
+    rd.init_style = run % 2 == 1;
     let waker = noop_waker();
     let mut cx = std::task::Context::from_waker(&waker);
     let mut seen = 0usize;
